@@ -35,6 +35,10 @@ ASSUMPTIONS = [
 
 
 def error_text(obs):
+    return obs.error_text
+
+
+def _unused_error_text(obs):
     parts = []
     if obs.exception is not None:
         parts.append(str(obs.exception))
@@ -57,6 +61,9 @@ def check_case(case):
         jobs = RW.jobs_of(prog)
         tok_nodes = schedcase.node_of_token(prog)
         obs = schedcase.run_case(case, d)
+        if obs.timed_out:  # inconclusive (C18 owns termination)
+            case["_obs"] = dict(timed_out=True)
+            return []
         started = [e[1] for e in obs.events if e[0] == "S"]
         ended_ok = {e[1] for e in obs.events if e[0] == "E" and e[2] == "ok"}
         failed = [e[1] for e in obs.events if e[0] == "E" and e[2] == "fail"]
@@ -91,7 +98,7 @@ def check_case(case):
         case["_obs"] = dict(pending_at_failure=pending_at_failure, failed=len(failed),
                             timeouts=obs.settle_timeouts)
         if failed:
-            errored = obs.exception is not None or (obs.result is not None and obs.result.errored)
+            errored = obs.exception is not None or obs.errored
             if not errored:
                 recs.append(dict(signature="workflow-succeeded-despite-failed-job",
                                  observed=dict(failed=failed, outputs=obs.outputs), expected="an error"))
@@ -110,7 +117,7 @@ def check_case(case):
         for r in recs:
             if r["signature"] not in seen:
                 seen.add(r["signature"])
-                r["detail"] = dict(releases=obs.releases[:40], error=short(obs.exception) if obs.exception else None)
+                r["detail"] = dict(releases=obs.releases[:40], error=obs.exception)
                 out.append(r)
         return out
     finally:
@@ -158,6 +165,8 @@ def run(sh):
         sh.run_case(case, nontrivial=False, labels=[f"worker_{case['worker']}", f"nfail_{len(case['fails'])}"],
                     raise_unattributed=True)
         obs = case.pop("_obs", {})
+        if obs.get("timed_out"):
+            sh.count("inconclusive_timed_out")
         if obs.get("timeouts"):
             sh.count("settle_timeouts", obs["timeouts"])
         if obs.get("failed") and obs.get("pending_at_failure"):
